@@ -635,6 +635,7 @@ def execute(desc):
         elif kind == "reader_noise":
             import types as _types
             nm = _types.ModuleType("c29noise")
+            kw_before = M.Keyword("max-size")   # built before the noise; only hy.as_model runs after it
             try:
                 hy.eval(hy.read_many('(defreader dur (with [(&reader.end-identifier "s")] (setv n (.parse-one-form &reader))) '
                                      '(.getc &reader) n)\n(setv noise [#dur 90s #dur 5s])\n'), module=nm)
@@ -647,8 +648,8 @@ def execute(desc):
             probes["reader_noise_between_promotions"] = probes.get("reader_noise_between_promotions", 0) + 1
             events.append([i, "reader_noise"])
             # right afterwards: values whose promotion goes through Symbol / Keyword validation
-            promote(i, "after_noise", [False, None, True, M.Keyword("max-size"), "s"], "after_noise",
-                    expect=[False, None, True, M.Keyword("max-size"), "s"])
+            promote(i, "after_noise", [False, None, True, kw_before, "s"], "after_noise",
+                    expect=[False, None, True, kw_before, "s"])
         elif kind == "promote_read":
             models = list(hy.read_many(READ_SRC))
             vals = [1, "two", 3.5, M.Keyword("kw"), [4, 5], (6, "x"), True, b"by", {7: 8}]
